@@ -89,8 +89,12 @@ func (ep *endpoint) handshakeCase(hdr []byte, good bool, tag string, cut int) er
 	start := time.Now()
 	one := make([]byte, 64)
 	closed := false
+	poll := time.Millisecond
 	for time.Since(start) < watchdog {
-		_ = c.SetReadDeadline(time.Now().Add(50 * time.Millisecond))
+		_ = c.SetReadDeadline(time.Now().Add(poll))
+		if poll < 50*time.Millisecond {
+			poll *= 2
+		}
 		_, err := c.Read(one)
 		if err == nil {
 			continue
